@@ -315,8 +315,14 @@ func (rf *ReplicaFollower) Run() error {
 					err = errors.Join(ErrRestart, fmt.Errorf("channel.StartPoint error : runId(%s), error(%v)", leaderSp.RunId, err))
 					return err
 				}
-				state = 3 // meta sync
-				continue
+				if !followerSp.IsInitial() && followerSp.RunId == leaderSp.RunId {
+					state = 3 // meta sync
+					continue
+				}
+				// the transfer ended without an error but the channel holds nothing under the
+				// leader's id (the store could not commit the snapshot) : start over instead of
+				// asking with the run id "?", whose answer would be read as a snapshot of size 0
+				err = fmt.Errorf("snapshot is not held after its transfer : leader(%v), follower(%v)", leaderSp, followerSp)
 			}
 		case 5: // aof
 			err = rf.aofSync(followerSp, stream, resp)
